@@ -728,6 +728,10 @@ fn algorithm(scn: &Value) -> SearchAlgorithm {
         "dijkstra" => SearchAlgorithm::Dijkstra,
         _ => {
             if scn["wf_src"].as_str().unwrap_or("alg") == "alg" {
+                // a weight factor of one may be left unset
+                if ji(&scn["wf"]) == 1000 && scn["omit_zero"].as_bool().unwrap_or(false) {
+                    return SearchAlgorithm::AStarAlgorithm { weight_factor: None };
+                }
                 SearchAlgorithm::AStarAlgorithm { weight_factor: Some(Cost::new(jf(&scn["wf"]) / 1000.0)) }
             } else {
                 // the query overrides the configured factor
